@@ -13,6 +13,14 @@
 //! more segment. `ops`: joined by `,`: `r` recv, `n` recv_nonblocking, `p` ping, `s0<hex>` send
 //! `Message::new_binary`, `s1<hex>` send `Message::new`. The stream is dropped after the last op.
 //! `writes`: hex of every `write` call made during the op, joined by `.`.
+//!
+//! Run-length forms (scripts of 200 000 frames stay small in the case line): an item of `frames`, `delivery`
+//! and `ops` may be `<count>*<group>`, a group being items joined by `+`; a frame's payload is hex or
+//! `g<len>s<seed>` (the bytes `(31 i + 7 (i / 251) + seed) mod 256`). In the output a run of identical
+//! consecutive writes of an op is `<count>*<hex>`, a run of identical consecutive entries `<count>*<entry>`, and
+//! a message payload above 100 000 bytes is `#<len>:<FNV-1a 64>`. Cases written with these forms (`scale_cases`)
+//! run in a WORKER PROCESS, the session on a thread with Rust's default 2 MiB stack (what a handler thread
+//! of the server has): `ABORT` (the process died, e.g. stack overflow) and `TIMEOUT` are observations.
 use crate::common::*;
 use humphrey::http::headers::Headers;
 use humphrey::http::method::Method;
@@ -216,6 +224,73 @@ fn frames_text(fs: &[CF]) -> String {
     if fs.is_empty() { "-".into() } else { fs.iter().map(frame_text).collect::<Vec<_>>().join(",") }
 }
 
+/// `<count>*<rest>` → `(count, rest)`; anything else → `(1, s)`.
+fn count_prefix(s: &str) -> (usize, &str) {
+    if let Some((n, rest)) = s.split_once('*') {
+        if !n.is_empty() && n.bytes().all(|b| b.is_ascii_digit()) {
+            if let Ok(k) = n.parse::<usize>() {
+                return (k, rest);
+            }
+        }
+    }
+    (1, s)
+}
+
+/// Items joined by `sep`, each `[count*]a+b+…`, expanded.
+fn expand_items<T: Clone>(s: &str, sep: char, parse: &dyn Fn(&str) -> Option<T>) -> Option<Vec<T>> {
+    let mut out = Vec::new();
+    for item in s.split(sep) {
+        let (k, body) = count_prefix(item);
+        let group: Vec<T> = body.split('+').map(parse).collect::<Option<Vec<T>>>()?;
+        for _ in 0..k {
+            out.extend(group.iter().cloned());
+        }
+    }
+    Some(out)
+}
+
+/// Run-length form of a list of texts: a run of `k >= 2` equal neighbours becomes `k*text`.
+fn rle(items: &[String]) -> Vec<String> {
+    let mut out = Vec::new();
+    let mut i = 0;
+    while i < items.len() {
+        let mut j = i + 1;
+        while j < items.len() && items[j] == items[i] {
+            j += 1;
+        }
+        out.push(if j - i >= 2 { format!("{}*{}", j - i, items[i]) } else { items[i].clone() });
+        i = j;
+    }
+    out
+}
+
+fn fnv(b: &[u8]) -> u64 {
+    let mut h: u64 = 0xcbf29ce484222325;
+    for x in b {
+        h ^= *x as u64;
+        h = h.wrapping_mul(0x100000001b3);
+    }
+    h
+}
+
+/// Payload of a delivered message: hex, or length and hash above 100 000 bytes.
+fn payload_text(p: &[u8]) -> String {
+    if p.len() > 100_000 { format!("#{}:{:016x}", p.len(), fnv(p)) } else { hex(p) }
+}
+
+/// `g<len>s<seed>`: the generated payload `(31 i + 7 (i / 251) + seed) mod 256`.
+fn gen_payload(len: usize, seed: usize) -> Vec<u8> {
+    (0..len).map(|i| ((31 * i + 7 * (i / 251) + seed) % 256) as u8).collect()
+}
+
+fn parse_payload(s: &str) -> Option<Vec<u8>> {
+    if let Some(rest) = s.strip_prefix('g') {
+        let (l, sd) = rest.split_once('s')?;
+        return Some(gen_payload(l.parse().ok()?, sd.parse().ok()?));
+    }
+    Some(unhex(s))
+}
+
 fn parse_frame(s: &str) -> Option<CF> {
     let p: Vec<&str> = s.split('.').collect();
     if p.len() != 6 {
@@ -240,7 +315,7 @@ fn parse_frame(s: &str) -> Option<CF> {
         opcode: p[2].parse().ok()?,
         mask: b(p[3])?,
         key: [k[0], k[1], k[2], k[3]],
-        payload: unhex(p[5]),
+        payload: parse_payload(p[5])?,
     })
 }
 
@@ -248,7 +323,7 @@ fn parse_frames(s: &str) -> Option<Vec<CF>> {
     if s == "-" {
         return Some(vec![]);
     }
-    s.split(',').map(parse_frame).collect()
+    expand_items(s, ',', &parse_frame)
 }
 
 /* ---------------------------------------------------------------- delivery */
@@ -276,9 +351,7 @@ fn parse_delivery(s: &str) -> Option<Vec<Item>> {
     if s == "-" {
         return Some(vec![]);
     }
-    s.split(',')
-        .map(|x| if x == "n" { Some(Item::NotYet) } else { x.parse().ok().filter(|k| *k > 0).map(Item::Seg) })
-        .collect()
+    expand_items(s, ',', &|x: &str| if x == "n" { Some(Item::NotYet) } else { x.parse().ok().filter(|k| *k > 0).map(Item::Seg) })
 }
 
 fn events(bytes: &[u8], d: &[Item]) -> Vec<Ev> {
@@ -329,16 +402,14 @@ fn parse_ops(s: &str) -> Option<Vec<Op>> {
     if s == "-" {
         return Some(vec![]);
     }
-    s.split(',')
-        .map(|x| match x {
-            "r" => Some(Op::Recv),
-            "n" => Some(Op::RecvNb),
-            "p" => Some(Op::Ping),
-            _ if x.starts_with("s0") => Some(Op::Send(false, unhex(&x[2..]))),
-            _ if x.starts_with("s1") => Some(Op::Send(true, unhex(&x[2..]))),
-            _ => None,
-        })
-        .collect()
+    expand_items(s, ',', &|x: &str| match x {
+        "r" => Some(Op::Recv),
+        "n" => Some(Op::RecvNb),
+        "p" => Some(Op::Ping),
+        _ if x.starts_with("s0") => Some(Op::Send(false, unhex(&x[2..]))),
+        _ if x.starts_with("s1") => Some(Op::Send(true, unhex(&x[2..]))),
+        _ => None,
+    })
 }
 
 fn err_text(e: &WebsocketError) -> String {
@@ -346,7 +417,7 @@ fn err_text(e: &WebsocketError) -> String {
 }
 
 fn msg_text(m: &Message) -> String {
-    format!("{}{}", if m.is_text() { "T" } else { "B" }, hex(m.bytes()))
+    format!("{}{}", if m.is_text() { "T" } else { "B" }, payload_text(m.bytes()))
 }
 
 struct Session {
@@ -364,7 +435,7 @@ impl Session {
 
     fn new_writes(&mut self) -> String {
         let sh = self.shared.lock().unwrap();
-        let w = sh.writes[self.seen_writes..].iter().map(|w| hex(w)).collect::<Vec<_>>().join(".");
+        let w = rle(&sh.writes[self.seen_writes..].iter().map(|w| hex(w)).collect::<Vec<_>>()).join(".");
         self.seen_writes = sh.writes.len();
         // the stream must be back in blocking mode after every call
         if sh.switches.last() == Some(&true) {
@@ -413,7 +484,7 @@ impl Session {
         let r = guarded(move || drop(ws));
         let w = self.new_writes();
         self.out.push(format!("{}/{}", if r.is_ok() { "D" } else { "PANIC" }, w));
-        self.out.join(";")
+        rle(&self.out).join(";")
     }
 }
 
@@ -498,15 +569,32 @@ pub fn exec(f: &[String]) -> Option<String> {
     match (f[0].as_str(), f.len()) {
         ("hs", 2) => Some(run_handshake(&parse_headers(&f[1])?)),
         ("sess", 5) => {
+            // cases written with the run-length / generated-payload forms are the large ones: they run in a worker
+            // process (an abort of the process is then an observation), whoever asks
+            let large = f[1].contains('*') || f[1].contains('g') || f[3].contains('*') || f[4].contains('*');
+            if large && !in_worker() {
+                return crate::worker::run_cases("C11", &[f.to_vec()], SCALE_WATCHDOG).pop();
+            }
             let frames = parse_frames(&f[1])?;
             let keep: usize = f[2].parse().ok()?;
             let d = parse_delivery(&f[3])?;
             let ops = parse_ops(&f[4])?;
-            Some(run_session(&frames, keep, &d, &ops))
+            // on a thread of its own, with the default stack size of `std::thread` (2 MiB): that is what a
+            // connection handler of the server runs on
+            let h = std::thread::Builder::new().spawn(move || run_session(&frames, keep, &d, &ops)).ok()?;
+            Some(h.join().unwrap_or_else(|_| "PANIC".into()))
         }
         _ => None,
     }
 }
+
+/// Is this process a `hv __worker <property>` child?
+fn in_worker() -> bool {
+    std::env::args().nth(1).as_deref() == Some("__worker")
+}
+
+/// Watchdog for one large session in a worker process.
+const SCALE_WATCHDOG: Duration = Duration::from_secs(30);
 
 /* ---------------------------------------------------------------- generators */
 
@@ -1002,6 +1090,237 @@ fn gen_handshakes(out: &mut Out, rng: &mut Rng, n: usize) {
     }
 }
 
+/* ---------------------------------------------------------------- sizes, counts and histories well above small */
+
+/// Counts around powers of two and typical limits. Quick: the three decades; thorough: the sweep.
+fn sweep(thorough: bool, quick: &[usize], more: &[usize]) -> Vec<usize> {
+    let mut v: Vec<usize> = quick.to_vec();
+    if thorough {
+        v.extend_from_slice(more);
+    }
+    v.sort_unstable();
+    v.dedup();
+    v
+}
+
+fn ftext(fin: bool, opcode: u8, mask: bool, key: &str, payload: &str) -> String {
+    format!("{}.000.{}.{}.{}.{}", bit(fin), opcode, bit(mask), if mask { key } else { "00000000" }, payload)
+}
+
+/// Number of bytes a frame script puts on the wire.
+fn script_wire_len(frames: &str) -> usize {
+    parse_frames(frames).map(|fs| fs.iter().map(frame_len).sum()).unwrap_or(0)
+}
+
+/// The large-scale family, as case fields with a tag for the statistics (`sess` cases in the run-length forms):
+/// floods of control frames before a message, between its fragments, alternating with its fragments, before a Close and
+/// with nothing after; messages of very many fragments; very many messages on one connection (the same stream object
+/// used again and again, receiving, polling, echoing); payload lengths at the 7/16/64-bit boundaries and far above.
+/// Everything is derived from sweeps, nothing from a particular defect.
+pub fn scale_cases(thorough: bool, seed: u64) -> Vec<(String, Vec<String>)> {
+    let mut rng = Rng::new(seed ^ 0x5CA1E);
+    let mut v: Vec<(String, Vec<String>)> = Vec::new();
+    // `short`: how many bytes of the stream do not arrive (0 = EOF at the end of the script)
+    let mut add = |tag: String, frames: String, short: usize, delivery: String, ops: String| {
+        let keep = script_wire_len(&frames).saturating_sub(short);
+        v.push((tag, vec!["sess".into(), frames, keep.to_string(), delivery, ops]));
+    };
+    let newkey = |rng: &mut Rng| hex(&rand_key(rng));
+
+    // ---- A. floods of control frames
+    let flood_counts = sweep(thorough, &[1_000, 20_000, 200_000], &[100, 128, 255, 256, 257, 1_024, 4_096, 8_192, 12_000, 50_000, 65_536, 100_000, 1_000_000]);
+    let mut idx = 0usize;
+    for &n in &flood_counts {
+        for (op, opname) in [(PING, "ping"), (PONG, "pong")] {
+            for mask in [false, true] {
+                let key = newkey(&mut rng);
+                // the control frame: empty, or (smaller floods) with a payload that the Pong must mirror
+                let payloads: Vec<String> = if n <= 20_000 { vec!["".into(), hex(&rng.bytes(1 + (idx % 7))), hex(&vec![0x70u8; 125])] } else { vec!["".into()] };
+                for pl in &payloads {
+                    if pl.len() == 250 && n > 1_024 {
+                        continue;
+                    }
+                    let ctl = ftext(true, op, mask, &key, pl);
+                    let clen = 2 + if mask { 4 } else { 0 } + pl.len() / 2;
+                    let msg = ftext(true, if idx % 2 == 0 { TEXT } else { BIN }, true, &key, "6869");
+                    let first = ftext(false, BIN, true, &key, "01");
+                    let cont = ftext(false, CONT, true, &key, "62");
+                    let last = ftext(true, CONT, idx % 3 != 0, &key, "0203");
+                    let close = ftext(true, CLOSE, true, &key, "03e8");
+                    // (position, frames, ops per mode)
+                    let mut shapes: Vec<(&str, String, usize)> = vec![
+                        ("before-message", format!("{}*{},{}", n, ctl, msg), 2),
+                        ("between-fragments", format!("{},{}*{},{}", first, n, ctl, last), 2),
+                        ("nothing-after", format!("{}*{}", n, ctl), 1),
+                        ("before-close", format!("{}*{},{}", n, ctl, close), 1),
+                        ("after-message", format!("{},{}*{}", msg, n, ctl), 2),
+                    ];
+                    if n <= 20_000 && pl.is_empty() {
+                        // alternating with the fragments of one message
+                        shapes.push(("alternating-with-fragments", format!("{},{}*{}+{},{}", first, n, ctl, cont, last), 2));
+                    }
+                    for (shape_i, (pos, frames, nops)) in shapes.into_iter().enumerate() {
+                        // the million-frame floods: one shape per opcode and mask
+                        if n > 200_000 && pos != "before-message" && pos != "nothing-after" {
+                            continue;
+                        }
+                        for mode in ["r", "n"] {
+                            idx += 1;
+                            if n >= 200_000 && mode == "n" && (shape_i + (mask as usize)) % 2 == 1 {
+                                continue;
+                            }
+                            let delivery = match idx % 5 {
+                                0 | 1 => "-".to_string(),
+                                2 => format!("{}*{}", n, clen), // roughly frame by frame
+                                3 => format!("{}*4096", (n * clen) / 4096 + 1),
+                                _ => {
+                                    if n <= 20_000 { format!("{}*1", n * clen) } else { format!("{}*1460", (n * clen) / 1460 + 1) }
+                                }
+                            };
+                            // now and then the last byte never arrives
+                            let short = if idx % 11 == 0 { 1 } else { 0 };
+                            add(format!("flood:{}|flood:n={}|flood:{}", opname, n, pos), frames.clone(), short, delivery, format!("{}*{}", nops, mode));
+                        }
+                    }
+                }
+            }
+        }
+    }
+
+    // ---- B. messages of very many fragments
+    let frag_counts = sweep(thorough, &[100, 1_000, 10_000], &[128, 255, 256, 257, 1_024, 4_096, 8_192, 20_000]);
+    for &n in &frag_counts {
+        for (k, piece) in ["62", "", "e282ac", "g300s5"].iter().enumerate() {
+            if *piece == "g300s5" && n > 1_024 {
+                continue;
+            }
+            for mode in ["r", "n"] {
+                let key = newkey(&mut rng);
+                let op = if k % 2 == 0 { TEXT } else { BIN };
+                let mask = (k + n) % 3 != 0;
+                let frames = format!("{},{}*{},{}", ftext(false, op, mask, &key, piece), n.saturating_sub(2), ftext(false, CONT, mask, &key, piece), ftext(true, CONT, mask, &key, piece));
+                let delivery = match k { 0 => "-".to_string(), 1 => format!("{}*{}", n, 2 + if mask { 4 } else { 0 }), 2 => format!("{}*4096", n / 400 + 1), _ => "-".to_string() };
+                add(format!("fragments:n={}", n), frames, 0, delivery, format!("2*{}", mode));
+            }
+        }
+    }
+
+    // ---- C. very many messages on one connection
+    let msg_counts = sweep(thorough, &[100, 1_000, 10_000], &[128, 255, 256, 257, 1_024, 4_096, 8_192, 20_000]);
+    for &n in &msg_counts {
+        let key = newkey(&mut rng);
+        let msg = ftext(true, TEXT, true, &key, "6869");
+        let bin = ftext(true, BIN, false, &key, &hex(&rng.bytes(3)));
+        let ping = ftext(true, PING, true, &key, "70");
+        let pong = ftext(true, PONG, true, &key, "");
+        let frag = ftext(false, BIN, true, &key, "0102");
+        let fin = ftext(true, CONT, true, &key, "03");
+        let close = ftext(true, CLOSE, true, &key, "");
+        let shapes: Vec<(&str, String, usize)> = vec![
+            ("same-message", format!("{}*{}", n, msg), 8),
+            ("two-kinds", format!("{}*{}+{}", n / 2, msg, bin), 8 + 5),
+            ("message-then-ping", format!("{}*{}+{}", n, msg, ping), 8 + 7),
+            ("pong-then-message", format!("{}*{}+{}", n, pong, bin), 6 + 5),
+            ("fragmented-messages", format!("{}*{}+{},{}", n / 2, frag, fin, close), 8 + 7),
+            ("messages-then-close", format!("{}*{},{}", n, msg, close), 8),
+        ];
+        for (si, (shape, frames, unit)) in shapes.into_iter().enumerate() {
+            for mode in ["r", "n", "r+n"] {
+                if mode == "r+n" && n > 4_096 {
+                    continue;
+                }
+                // quick tier: the largest count with two of the shapes only
+                if !thorough && n > 1_024 && shape != "same-message" && shape != "message-then-ping" {
+                    continue;
+                }
+                let calls = n + 2;
+                let ops = if mode == "r+n" { format!("{}*r+n", calls / 2 + 1) } else { format!("{}*{}", calls, mode) };
+                // whole, or (up to 1 024 messages) message by message with a pause after each
+                let delivery = if n <= 1_024 && (si + n) % 2 == 0 { format!("{}*{}+n", n, unit) } else { "-".to_string() };
+                add(format!("messages:n={}|messages:{}", n, shape), frames.clone(), 0, delivery, ops);
+            }
+        }
+        // an echo handler: every message is sent back (send and receive alternate on the same stream object)
+        if n <= 1_024 || (thorough && n <= 10_000) {
+            add(format!("messages:n={}|messages:echo", n), format!("{}*{}", n, msg), 0, "-".into(), format!("{}*r+s16869,r", n));
+            add(format!("messages:n={}|messages:echo", n), format!("{}*{}+{}", n, msg, ping), 0, "-".into(), format!("{}*n+s0{}+p,n", n, hex(&rng.bytes(2))));
+        }
+    }
+
+    // ---- D. payload lengths: the 7/16/64-bit boundaries, powers of two, and far above
+    let lens = sweep(thorough, &[125, 126, 127, 65_535, 65_536, 65_537, 100_000, 100_001, 262_144, 1 << 20],
+                     &[128, 255, 256, 257, 1_000, 1_024, 4_095, 4_096, 4_097, 8_192, 16_384, 32_768, 131_072, 262_143, 262_145, 524_288, (1 << 20) + 1, 2 << 20, 3_000_000, 4 << 20]);
+    for &l in &lens {
+        for mask in [true, false] {
+            for mode in ["r", "n"] {
+                let key = newkey(&mut rng);
+                let sd = rng.below(256);
+                let whole = ftext(true, if mask { BIN } else { TEXT }, mask, &key, &format!("g{}s{}", l, sd));
+                let ext = if l <= 125 { 0 } else if l <= 65_535 { 2 } else { 8 };
+                let hdr = 2 + ext + if mask { 4 } else { 0 };
+                for (di, delivery) in ["-".to_string(), format!("{},{}*4096", hdr, l / 4096 + 1), format!("1,{}*1460", l / 1460 + 2), format!("{}*65536", l / 65536 + 1)].iter().enumerate() {
+                    if (di == 1 || di == 3) && l < 4_096 {
+                        continue;
+                    }
+                    if di >= 2 && mode == "n" && l > (1 << 20) {
+                        continue;
+                    }
+                    // quick tier: the largest payloads whole and in 4 096-byte segments, non-blocking whole only
+                    if !thorough && l >= 262_144 && (di >= 2 || (di == 1 && mode == "n")) {
+                        continue;
+                    }
+                    add(format!("payload:len={}", l), whole.clone(), 0, delivery.clone(), format!("2*{}", mode));
+                }
+                // as the first of two fragments, a control frame between them; and as the second fragment
+                let tail = ftext(true, CONT, true, &key, "0102");
+                let head = ftext(false, TEXT, true, &key, "68");
+                let part = ftext(false, BIN, mask, &key, &format!("g{}s{}", l, sd));
+                let partfin = ftext(true, CONT, mask, &key, &format!("g{}s{}", l, sd));
+                let ping = ftext(true, PING, true, &key, "7069");
+                if !thorough && l >= 262_144 && (mode == "n") != mask {
+                    continue;
+                }
+                add(format!("payload:len={}", l), format!("{},{},{}", part, ping, tail), 0, "-".into(), format!("2*{}", mode));
+                add(format!("payload:len={}", l), format!("{},{}", head, partfin), if mask { 0 } else { 1 }, format!("{}*8192", l / 8192 + 1), format!("2*{}", mode));
+            }
+        }
+    }
+    // several large messages one after the other on the same connection
+    for (n, l) in [(8usize, 65_536usize), (4, 262_144), (3, 1 << 20)] {
+        let key = newkey(&mut rng);
+        add(format!("payload:len={}", l), format!("{}*{}", n, ftext(true, BIN, true, &key, &format!("g{}s3", l))), 0, "-".into(), format!("{}*r", n + 1));
+    }
+    v
+}
+
+/// Runs the large-scale family in worker processes (a few at a time) and returns the outputs.
+pub fn run_scale(cases: &[(String, Vec<String>)]) -> Vec<String> {
+    let fields: Vec<Vec<String>> = cases.iter().map(|c| c.1.clone()).collect();
+    let nthreads = 8usize;
+    // dealt round-robin: neighbours are of similar size
+    let mut parts: Vec<Vec<(usize, Vec<String>)>> = vec![Vec::new(); nthreads];
+    for (i, f) in fields.into_iter().enumerate() {
+        parts[i % nthreads].push((i, f));
+    }
+    let handles: Vec<_> = parts
+        .into_iter()
+        .map(|part| {
+            std::thread::spawn(move || {
+                let fs: Vec<Vec<String>> = part.iter().map(|p| p.1.clone()).collect();
+                let rs = crate::worker::run_cases("C11", &fs, SCALE_WATCHDOG);
+                part.iter().map(|p| p.0).zip(rs.into_iter()).collect::<Vec<_>>()
+            })
+        })
+        .collect();
+    let mut res = vec![String::new(); cases.len()];
+    for h in handles {
+        for (i, r) in h.join().unwrap() {
+            res[i] = r;
+        }
+    }
+    res
+}
+
 pub fn gen(out: &mut Out, thorough: bool, seed: u64) {
     let mut rng = Rng::new(seed ^ 0xC11);
     gen_handshakes(out, &mut rng, if thorough { 6000 } else { 1500 });
@@ -1128,5 +1447,18 @@ pub fn gen(out: &mut Out, thorough: bool, seed: u64) {
             out.count("sess:end=server-drop");
         }
         emit_session(out, &fs, keep, &d, &ops, &r);
+    }
+
+    // ---- sizes, counts and histories well above small (worker processes; see `scale_cases`)
+    let scale = scale_cases(thorough, seed);
+    let results = run_scale(&scale);
+    for ((tag, fields), r) in scale.iter().zip(results.iter()) {
+        let refs: Vec<&str> = fields.iter().map(|s| s.as_str()).collect();
+        out.count("fn=sess");
+        for t in tag.split('|') {
+            out.count(&format!("scale:{}", t));
+        }
+        out.count(&format!("scale:result={}", if r == "ABORT" || r == "TIMEOUT" || r == "UNSUPPORTED" { r.as_str() } else if r.contains("PANIC") { "PANIC" } else { "ran" }));
+        out.case(&refs, r, true);
     }
 }
